@@ -155,7 +155,11 @@ func multiUpCases(tmpl tcase, ss []*schema, inputs [][]mrow, zm zmode, build fun
 	var out []*tcase
 	per := make([][]script, len(inputs))
 	for i := range inputs {
-		per[i] = scriptsFor(len(inputs[i]), zm)
+		if tmpl.scriptsFn != nil {
+			per[i] = tmpl.scriptsFn(len(inputs[i]))
+		} else {
+			per[i] = scriptsFor(len(inputs[i]), zm)
+		}
 	}
 	idx := make([]int, len(inputs))
 	for {
@@ -184,7 +188,17 @@ func multiUpCases(tmpl tcase, ss []*schema, inputs [][]mrow, zm zmode, build fun
 				varied++
 			}
 		}
-		if !tmpl.oneAtATime || varied <= 1 {
+		same := true
+		for _, x := range idx {
+			if x != idx[0] {
+				same = false
+			}
+		}
+		if tmpl.lockstep {
+			if same {
+				out = append(out, &tc)
+			}
+		} else if !tmpl.oneAtATime || varied <= 1 {
 			out = append(out, &tc)
 		}
 		// odometer
@@ -737,17 +751,19 @@ func keyedCases(cfg *config) []*tcase {
 		}
 	}
 
-	// cogroup: one or two inputs (unsorted); output (key, []values of input 0, []values of input 1)
-	// ordered by key; the order inside a group is not fixed by anything and is normalised.
+	// cogroup: one to three inputs (unsorted); output (key, []values of input 0, []values of
+	// input 1, ...) ordered by key; the order inside a group is not fixed by anything and is
+	// normalised.
 	type cg struct {
-		k      reflect.Type
-		v0, v1 reflect.Type
+		k reflect.Type
+		v []reflect.Type
 	}
-	for _, c := range []cg{{tInt, tString, tInt}, {tString, tBytes, tPt}} {
+	for ci, c := range []cg{{tInt, []reflect.Type{tString, tInt, tInt64}}, {tString, []reflect.Type{tBytes, tPt, tInt}}} {
 		c := c
-		s0 := &schema{c.k.String() + "+" + c.v0.String(), []reflect.Type{c.k, c.v0}}
-		s1 := &schema{c.k.String() + "+" + c.v1.String(), []reflect.Type{c.k, c.v1}}
-		ss := []*schema{s0, s1}
+		ss := make([]*schema, len(c.v))
+		for i, v := range c.v {
+			ss[i] = &schema{c.k.String() + "+" + v.String(), []reflect.Type{c.k, v}}
+		}
 		cogRef := func(in [][]mrow) []crow {
 			type grp struct{ vals [][]string }
 			groups := map[int]*grp{}
@@ -778,23 +794,25 @@ func keyedCases(cfg *config) []*tcase {
 			}
 			return out
 		}
-		layouts := [][][]int{{{2, 1, 2}, {3, 2}}, {{1, 0}, {0, 1, 4}}, {{}, {3, 1, 2, 1, 3}}, {{0, 0, 0, 1, 2}, {}}, {{4, 3, 2, 1, 0}}}
+		mkCog := func(ndep int) (bigslice.Slice, []reflect.Type) {
+			out := []reflect.Type{c.k}
+			srcs := make([]bigslice.Slice, ndep)
+			for i := 0; i < ndep; i++ {
+				srcs[i] = srcSlice(ss[i])
+				out = append(out, reflect.SliceOf(c.v[i]))
+			}
+			return bigslice.Cogroup(srcs...), out
+		}
+		layouts := [][][]int{{{2, 1, 2}, {3, 2}}, {{1, 0}, {0, 1, 4}}, {{}, {3, 1, 2, 1, 3}}, {{0, 0, 0, 1, 2}, {}}, {{4, 3, 2, 1, 0}}, {{1, 0}, {2, 1}, {1}}}
 		if cfg.thorough {
-			layouts = append(layouts, [][]int{{0, 1, 2, 3}, {4}}, [][]int{{5}, {5, 5, 5, 5}}, [][]int{{2, 2, 1, 1, 0}})
+			layouts = append(layouts, [][]int{{0, 1, 2, 3}, {4}}, [][]int{{5}, {5, 5, 5, 5}}, [][]int{{2, 2, 1, 1, 0}}, [][]int{{0, 1}, {}, {1, 1, 2}})
 		}
 		for _, lay := range layouts {
 			inputs := make([][]mrow, len(lay))
 			for i, keys := range lay {
 				inputs[i] = ss[i].keyedRows(keys, 10*(i+1))
 			}
-			var cog bigslice.Slice
-			out := []reflect.Type{c.k, reflect.SliceOf(c.v0)}
-			if len(lay) == 2 {
-				cog = bigslice.Cogroup(srcSlice(s0), srcSlice(s1))
-				out = append(out, reflect.SliceOf(c.v1))
-			} else {
-				cog = bigslice.Cogroup(srcSlice(s0))
-			}
+			cog, out := mkCog(len(lay))
 			// cogroup sorts each input through spill files (about 30 file-system
 			// operations per run): its inputs see the scripts only through ReadFull, so
 			// the script space is thinned (one input varied at a time, fewer zero-row
@@ -804,6 +822,60 @@ func keyedCases(cfg *config) []*tcase {
 				zm = zNone
 			}
 			add(multiUpCases(tcase{reader: "cogroup", desc: fmt.Sprintf("key=%s keys=%v", c.k, lay), out: out, sortElems: true, chunkDep: true, fewChunks: true, oneAtATime: true, fewSeqs: true}, ss[:len(lay)], inputs, zm,
+				func(ups []sliceio.Reader) sliceio.Reader { return cog.Reader(0, ups) }, cogRef)...)
+		}
+
+		// cogroup over inputs longer than its per-dependency merge buffer (128 rows, a
+		// constant inside cogroupReader.Read): with 300 rows a dependency's buffer is
+		// refilled twice while groups gathered from it are being assembled, are in the
+		// destination of the current Read, or are held by the caller from earlier Reads
+		// (the Reader contract: "Read should never reuse any allocated memory in the
+		// frame" — the caller may keep what it was given, as exec.bufferOutput does).
+		// Unique keys (one row per key and dependency: joins), repeated keys (groups of 2
+		// and 3 rows, which straddle the 128-row boundaries), dependencies of different
+		// lengths (refilled twice / once / never). Inputs arrive unsorted.
+		const big = 300
+		perm := func(n, mul int, key func(i int) int) []int { // keys in a scrambled but fixed order
+			out := make([]int, n)
+			for i := range out {
+				out[i] = key(i * mul % n)
+			}
+			return out
+		}
+		uniq := func(i int) int { return i }
+		pairs := func(i int) int { return i / 2 }
+		triples := func(i int) int { return i / 3 }
+		type bigLay struct {
+			name string
+			keys [][]int
+		}
+		bigLays := []bigLay{
+			{"1 dep, 300 unique keys", [][]int{perm(big, 7, uniq)}},
+			{"1 dep, 100 keys x 3 rows", [][]int{perm(big, 7, triples)}},
+			{"2 deps, 300 unique keys each (join)", [][]int{perm(big, 7, uniq), perm(big, 11, uniq)}},
+			{"2 deps, 300 unique keys | 100 keys x 3 rows", [][]int{perm(big, 7, uniq), perm(big, 11, triples)}},
+			{"2 deps, 150 keys x 2 rows | 5 rows", [][]int{perm(big, 7, pairs), {0, 64, 149, 149, 120}}},
+			{"3 deps, 300 unique keys each", [][]int{perm(big, 7, uniq), perm(big, 11, uniq), perm(big, 13, uniq)}},
+			{"3 deps, 150 keys x 2 rows | 140 unique keys | 300 unique keys 200..499", [][]int{perm(big, 7, pairs), perm(140, 3, uniq), perm(big, 11, func(i int) int { return 200 + i })}},
+		}
+		if ci == 1 && !cfg.thorough {
+			bigLays = []bigLay{bigLays[2], bigLays[3], bigLays[6]}
+		}
+		bigSeqs := append(append([][]int(nil), cfg.seqs...), []int{128}, []int{100}, []int{300}, []int{1000}, []int{7, 128})
+		bigScripts := func(n int) []script {
+			if n == 0 {
+				return []script{{}, {}}
+			}
+			return []script{{reads: []int{n}}, {reads: []int{n}, eofWithLast: true}}
+		}
+		for _, bl := range bigLays {
+			inputs := make([][]mrow, len(bl.keys))
+			for i, keys := range bl.keys {
+				inputs[i] = ss[i].keyedRows(keys, 10*(i+1))
+			}
+			cog, out := mkCog(len(bl.keys))
+			add(multiUpCases(tcase{reader: "cogroup", desc: fmt.Sprintf("large inputs: key=%s %s", c.k, bl.name), out: out, sortElems: true,
+				chunkDep: true, fewChunks: true, lockstep: true, seqs: bigSeqs, maxReads: 3*big + 64, scriptsFn: bigScripts}, ss[:len(bl.keys)], inputs, zNone,
 				func(ups []sliceio.Reader) sliceio.Reader { return cog.Reader(0, ups) }, cogRef)...)
 		}
 	}
@@ -1031,6 +1103,11 @@ func main() {
 		r.NotExhaustive("-only " + *flagOnly)
 	}
 	cfg := mkConfig(r.Thorough())
+	// SortReader re-sizes its frame to spillTarget/bytesPerRow rows (millions) once an
+	// input exceeds the canary size; the large cogroup inputs (300 rows) stay below it.
+	if err := flag.Set("bigslice-internal-default-sort-canary-rows", "512"); err != nil {
+		ev.Fatal("set sort canary: %v", err)
+	}
 	cases := buildCases(cfg)
 
 	stats := map[string]*readerStats{}
@@ -1084,6 +1161,8 @@ func main() {
 					n := len(cfg.seqs)
 					if tc.noSeq {
 						n = 1
+					} else if tc.seqs != nil {
+						n = len(tc.seqs)
 					} else if tc.fewSeqs {
 						n = len(cfg.fewSeqs)
 					}
@@ -1123,6 +1202,8 @@ func main() {
 				seqs := cfg.seqs
 				if tc.noSeq {
 					seqs = noSeq
+				} else if tc.seqs != nil {
+					seqs = tc.seqs
 				} else if tc.fewSeqs {
 					seqs = cfg.fewSeqs
 				}
@@ -1285,7 +1366,12 @@ func main() {
 			where = fmt.Sprintf(", destination frame lengths %v (cycled)", b.seq)
 		}
 		if b.tc.ref != nil {
-			detail["reference_rows"] = fulls(b.tc.ref(b.tc.inputs))
+			ref := fulls(b.tc.ref(b.tc.inputs))
+			if len(ref) > 24 {
+				detail["reference_rows_total"] = len(ref)
+				ref = ref[:24]
+			}
+			detail["reference_rows"] = ref
 		}
 		r.Violate(sig, fmt.Sprintf("%s [%s]%s: %s", b.tc.reader, b.tc.desc, where, b.f.msg), detail)
 	}
